@@ -6,7 +6,7 @@
 From Coq Require Import ZArith QArith List.
 From Verif.Model Require Import Result ParserGrammar.
 Import ListNotations.
-Open Scope Z_scope.
+Local Open Scope Z_scope.
 
 Definition ref_default_suffixes : list (str * Q) := [([37], (Qmake 1 100%positive))].
 Definition ref_metric_suffixes : list (str * Q) := [([107], (Qmake 1000 1%positive)); ([77], (Qmake 1000000 1%positive)); ([71], (Qmake 1000000000 1%positive)); ([84], (Qmake 1000000000000 1%positive)); ([109], (Qmake 1 1000%positive)); ([117], (Qmake 1 1000000%positive)); ([110], (Qmake 1 1000000000%positive)); ([112], (Qmake 1 1000000000000%positive))].
